@@ -19,6 +19,7 @@ def _name(fn, k):
 def _edge_interval(D, key, site_bb):
     """interval from dominating comparison edges only (range_of also folds in what a widening cast says, which is a fact about types)"""
     lo = hi = None
+    nes = set()
     for (bi, tt, ft, op, al, ac, bl, bc) in D._cmp_edges():
         for target, truth in ((tt, True), (ft, False)):
             if target is None or not D._edge_dominates(bi, target, site_bb):
@@ -44,6 +45,24 @@ def _edge_interval(D, key, site_bb):
             elif o == "Eq":
                 lo = c if lo is None else max(lo, c)
                 hi = c if hi is None else min(hi, c)
+            elif o == "Ne":
+                nes.add(c)
+    # `x != c` at the end of the known range (`if lf < 0 {..} if lf == 0 {..}` gives lf >= 1, like the match arm `1..`)
+    tr = INT_RANGE.get(D.key_ty(key))
+    if nes and tr is not None:
+        elo = lo if lo is not None else tr[0]
+        ehi = hi if hi is not None else tr[1]
+        changed = True
+        while changed:
+            changed = False
+            if elo in nes:
+                elo += 1
+                lo = elo
+                changed = True
+            if ehi in nes:
+                ehi -= 1
+                hi = ehi
+                changed = True
     return lo, hi
 
 
